@@ -235,6 +235,53 @@ func (p *Prog) Field(rel, typ, field string) *types.Var {
 	return nil
 }
 
+// OptField is Field without recording an unresolved anchor when absent.
+func (p *Prog) OptField(rel, typ, field string) *types.Var {
+	pk := p.ByPath[Mod+"/"+rel]
+	if pk == nil {
+		return nil
+	}
+	o := pk.Types.Scope().Lookup(typ)
+	if o == nil {
+		return nil
+	}
+	st, ok := o.Type().Underlying().(*types.Struct)
+	if !ok {
+		return nil
+	}
+	for i := 0; i < st.NumFields(); i++ {
+		if st.Field(i).Name() == field {
+			return st.Field(i)
+		}
+	}
+	return nil
+}
+
+// MutexField resolves the (first) field of a struct type whose type is sync.Mutex or
+// sync.RWMutex, or a pointer to one: the lock is identified by what it is, not by its name.
+func (p *Prog) MutexField(rel, typ string) *types.Var {
+	n := p.Named(rel, typ)
+	if n == nil {
+		return nil
+	}
+	st, ok := n.Underlying().(*types.Struct)
+	if !ok {
+		p.Unresolved = append(p.Unresolved, rel+"."+typ+" (not a struct)")
+		return nil
+	}
+	for i := 0; i < st.NumFields(); i++ {
+		t := st.Field(i).Type()
+		if pt, ok := t.(*types.Pointer); ok {
+			t = pt.Elem()
+		}
+		if nt, ok := t.(*types.Named); ok && nt.Obj().Pkg() != nil && nt.Obj().Pkg().Path() == "sync" && (nt.Obj().Name() == "Mutex" || nt.Obj().Name() == "RWMutex") {
+			return st.Field(i)
+		}
+	}
+	p.Unresolved = append(p.Unresolved, rel+"."+typ+" (no mutex field)")
+	return nil
+}
+
 // Func resolves a package-level function to its SSA function.
 func (p *Prog) Func(rel, name string) *ssa.Function {
 	o := p.Obj(rel, name)
